@@ -101,6 +101,7 @@ def structure(S):
     la = lock_analysis(S.facts())
     C08.rule_mul(S, la)
     C08.rule_link(S, la)
+    C08.rule_move(S)
     C06.rule_spl(S)
 
 
